@@ -87,6 +87,9 @@ def c14(ctx):
                 return
     for x in getattr(ctx.run, "c14_findings", []):
         yield x
+    post = getattr(ctx.run, "after_done", None)
+    if post is not None and post != "EnvDone":
+        yield F("step-after-done-not-refused", f"env.step on a finished episode gave {post} instead of EnvDone", None)
 
 
 # ---------------------------------------------------------------------------------------- C15
